@@ -109,3 +109,19 @@ func (db *DB) VerifWatchdogOnce() {
 		db.walWatchdog.RunOnce()
 	}
 }
+
+// VerifResolve returns the value bytes of an entry, reading out-of-line values
+// through the value log.
+func (db *DB) VerifResolve(meta byte, value []byte) ([]byte, error) {
+	if meta&kv.BitValuePointer == 0 {
+		return kv.SafeCopy(nil, value), nil
+	}
+	var vp kv.ValuePtr
+	vp.Decode(value)
+	val, cb, err := db.vlog.read(&vp)
+	defer kv.RunCallback(cb)
+	if err != nil {
+		return nil, err
+	}
+	return kv.SafeCopy(nil, val), nil
+}
